@@ -806,10 +806,12 @@ class SamplingMethod(DirectMethod):
         for offset in offsets.keys():
             if k==-1 and offset>0:
                 raise IndexError()
-            if k+offset<0:
+            # k==-1 denotes the final node, i.e. node N
+            k_target = (self.N if k==-1 else k)+offset
+            if k_target<0:
                 raise IndexError()
             subst_from.append(vvcat(symbols[offset]))
-            subst_to.append(self._eval_at_control(stage, vvcat(offsets[offset]), k+offset))
+            subst_to.append(self._eval_at_control(stage, vvcat(offsets[offset]), k_target))
             #print(expr, subst_from, subst_to)
 
 
